@@ -22,6 +22,8 @@ def gen(ctx, q):
             ns = ns + ([20, 120, 320, 640] if not q else [20, rng.choice([120, 320, 640])])
         if ch > 8:
             ns = [0, 1, 9]
+        if (sb, ch) in (("ALAC_16", 2), ("ALAC_32", 1), ("ALAC_24", 8)):
+            ns = ns + [9000]
         rates = RATES if not q else [8000, rng.choice(RATES), rng.choice([2 ** 30 - 1, 2 ** 31 - 1, 1, 65536])]
         for rate in rates:
             if mj in ("SVX", "MPC2K") and rate > 65535:
@@ -34,6 +36,14 @@ def gen(ctx, q):
                 L.append("open 0 %d w %x %d %d %d%s" % (sid, f, ch, rate, stale, route))
                 plan.append((len(L), "wopen", None))
                 left = n
+                if n == 9000:
+                    # incompressible audio over several ALAC packets: every packet becomes an escape packet of more than 16383 bytes, the sizes in the
+                    # packet table need three 7-bit groups with a zero in the middle
+                    t = "s" if sb == "ALAC_16" else "i"
+                    vals = [str(rng.range(-32768, 32767) if t == "s" else rng.range(-2 ** 31, 2 ** 31 - 1)) for _ in range(n * ch)]
+                    L.append("w 0 %s f %d %s" % (t, n, " ".join(vals)))
+                    plan.append((len(L), "write", n))
+                    left = 0
                 while left > 0:
                     k = min(left, rng.choice([1, 3, 64, 700]))
                     t = rng.choice(ts)
